@@ -1,3 +1,64 @@
+/-
+  C16 — exec applies operations exactly as the script would.
+-/
 import Btcdeb
+import BtcdebProofs.Refine.Step
+import BtcdebProofs.Lemmas.Frame
 namespace Btcdeb.Proofs.C16
+open Btcdeb Btcdeb.Model Btcdeb.Refine
+
+/-- running operations with `exec` never touches the script, the flags, the signature version or the
+    opcode position of the environment -/
+theorem evalRun_frame (cx : Ctx) (mainPc : Bytes) : ∀ (n : Nat) (e : SEE) (it : Bytes),
+    (evalRun cx mainPc n e it).1.frame = e.frame := by
+  intro n
+  induction n with
+  | zero => intro e it; rfl
+  | succ n ih =>
+    intro e it
+    simp only [evalRun]
+    split
+    · rfl
+    · split
+      · rename_i e' it' hs
+        have hf := step_frame cx e e' it it' hs
+        rw [ih]
+        have hite : ∀ (c : Bool) (p : Bytes), (if c = true then { e' with pbegincodehash := p } else e').frame = e'.frame := by
+          intro c p; cases c <;> rfl
+        rw [hite, hf]
+      · rfl
+
+/-- `exec` leaves the position, the remaining script, the history and the step counter untouched:
+    only stack, alt stack, conditional state and the bookkeeping the operations themselves change can differ -/
+theorem C16_position_untouched (cx : Ctx) (e e' : IEnv) (args : List Bytes) (err : Option StepErr)
+    (h : instEval cx e args = some (e', err)) :
+    e'.pc = e.pc ∧ e'.see.script = e.see.script ∧ e'.history = e.history ∧ e'.currOpSeq = e.currOpSeq ∧
+    e'.done = e.done ∧ e'.successor = e.successor ∧ e'.see.flags = e.see.flags ∧ e'.see.sigversion = e.see.sigversion := by
+  unfold instEval at h
+  split at h
+  · cases h
+  · split at h
+    · cases h
+    · rename_i s hs
+      simp only [Option.some.injEq, Prod.mk.injEq] at h
+      obtain ⟨rfl, _⟩ := h
+      have hf := evalRun_frame cx e.pc (s.length + 1) e.see s
+      simp only [SEE.frame, Prod.mk.injEq] at hf
+      exact ⟨rfl, hf.1, rfl, rfl, rfl, rfl, hf.2.1, hf.2.2.1⟩
+
+/-- each operation `exec` applies is one `StepScript` of the model, hence (C01, `step_refines`) exactly
+    the specification's execution of that instruction under the same flags and signature version:
+    the first operation of an `exec` -/
+theorem C16_first_op (cx : Ctx) (cfg : Spec.Cfg) (e : IEnv) (st : Spec.St) (s : Bytes) (i : Spec.Instr) (after : Bytes)
+    (hc : CfgRel cx e.see cfg) (hrel : Rel e.see st)
+    (hw : e.see.sigversion = .TAPSCRIPT → e.see.execdata.weightInit = true)
+    (hdec : Spec.decodeOne s = some (i, after)) :
+    RelStep (step cx e.see s) (Spec.execInstr cfg i after e.see.opcodePos st) after :=
+  step_refines cx cfg e.see st s i after hc hrel hw hdec
+
+/-- an argument list that contains an unknown word is refused before anything is executed -/
+theorem C16_refused (cx : Ctx) (e : IEnv) (args : List Bytes) (h : evalScriptOf args = none) :
+    instEval cx e args = none := by
+  unfold instEval; split <;> simp [h]
+
 end Btcdeb.Proofs.C16
